@@ -92,7 +92,15 @@ def ffromSpec (p : Profile) (D : Layout) (F : FloatFmt) (b : Nat) (form : String
     | "saturating_from" => if isInf then some (toString (if neg then D.min else D.max)) else some "P"
     | _ => some "P"
 
+/-- `Wrapping::<F>::from_num(src)` is `src.wrapping_to_fixed()` and `Wrapping(x).to_num::<Dst>()` is `Dst::wrapping_from_fixed(x)` (`wrapping.rs`):
+the `…_wfrom` / `…_wto` requests are answered by the wrapping forms of the conversion model -/
+def normW (op : String) : String :=
+  if op == "cv_wfrom" then "cv_wrapping_from" else if op == "cv_wto" then "cv_wrapping"
+  else if op == "icv_wfrom" then "icv_wrapping_from" else if op == "icv_wto" then "icv_wrapping"
+  else if op == "fcv_wfrom" then "fcv_wrapping_from" else op
+
 def model (p : Profile) (L : Layout) (op : String) (a : List String) : Option String :=
+  let op := normW op
   if op == "h_to_fixed_helper" then
     match a with
     | [x, sf, df, di] => do
@@ -183,6 +191,7 @@ def model (p : Profile) (L : Layout) (op : String) (a : List String) : Option St
 
 /-- documented answers from exact values only -/
 def spec (p : Profile) (L : Layout) (op : String) (a : List String) : Option String :=
+  let op := normW op
   if op == "cvt_from" || op == "cvt_lossy" then
     -- the infallible conversions: the exact result, always representable, in every profile
     match a with
